@@ -15,6 +15,7 @@
 package connectconformance
 
 import (
+	"encoding/binary"
 	"errors"
 	"fmt"
 	"math"
@@ -27,6 +28,7 @@ import (
 	conformancev1 "connectrpc.com/conformance/internal/gen/proto/go/connectrpc/conformance/v1"
 	"connectrpc.com/conformance/internal/gen/proto/go/connectrpc/conformance/v1/conformancev1connect"
 	"connectrpc.com/connect"
+	"google.golang.org/protobuf/encoding/protowire"
 	"google.golang.org/protobuf/proto"
 	"google.golang.org/protobuf/reflect/protoreflect"
 	"google.golang.org/protobuf/types/known/anypb"
@@ -511,43 +513,54 @@ func expandRequestData(testCase *conformancev1.TestCase) error {
 				i+1, reflectReq.Descriptor().FullName())
 		}
 
-		var adjustCount int
-		for {
-			size := proto.Size(concreteReq)
-			delta := totalSize - int64(size)
-			if delta == 0 {
-				// it's the right size
-				break
-			}
-			if adjustCount >= 2 {
-				// Oof. If we have to adjust it more than 2x, then we're at a weird boundary
-				// condition that can't easily be expanded to the exact size. This is highly
-				// unlikely, but can happen if adding the one byte of padding causes the data
-				// length to suddenly require one more byte to encode as a varint. In that
-				// case, adding one byte of data adds two bytes to the size. So if we were
-				// only one byte away from the desired size, the padded size pushes us one
-				// byte over.
-				return fmt.Errorf("request message #%d: can't pad to exactly %d bytes; closest we can get is %d",
-					i+1, totalSize, size)
-			}
-			// TODO: Do we care if the padding is highly compressible? We'll assume not
-			//       and use zero values for now.
-			bytesVal := reflectReq.Get(field).Bytes()
-			if delta > 0 {
-				padding := make([]byte, delta)
-				bytesVal = append(bytesVal, padding...)
-			} else {
-				bytesVal = bytesVal[:len(bytesVal)+int(delta)]
-			}
-			reflectReq.Set(field, protoreflect.ValueOfBytes(bytesVal))
-			adjustCount++
+		// Everything but the request_data field has a fixed size, so measure that
+		// and then compute how much data the field must hold to fill the rest.
+		// TODO: Do we care if the padding is highly compressible? We'll assume not
+		//       and use zero values for now.
+		bytesVal := reflectReq.Get(field).Bytes()
+		reflectReq.Clear(field)
+		sizeOfRest := int64(proto.Size(concreteReq))
+		dataLen, ok := bytesFieldDataLen(field, totalSize-sizeOfRest)
+		if !ok {
+			// Not every size is possible: an empty field takes up no space at all while
+			// a single byte of data takes three (tag, length prefix, data). And when the
+			// data becomes long enough that its length prefix needs another byte to
+			// encode as a varint, adding one byte of data adds two bytes to the size.
+			return fmt.Errorf("request message #%d: can't pad to exactly %d bytes: without the %s field the message is %d bytes and no amount of data accounts for the difference",
+				i+1, totalSize, field.Name(), sizeOfRest)
 		}
+		if dataLen <= int64(len(bytesVal)) {
+			bytesVal = bytesVal[:dataLen]
+		} else {
+			bytesVal = append(bytesVal, make([]byte, dataLen-int64(len(bytesVal)))...)
+		}
+		reflectReq.Set(field, protoreflect.ValueOfBytes(bytesVal))
 
 		if err := testCase.Request.RequestMessages[i].MarshalFrom(concreteReq); err != nil {
 			return fmt.Errorf("request message #%d: %w", i+1, err)
 		}
 	}
 	return nil
+}
+
+// bytesFieldDataLen returns the length of the data that makes the encoding of the
+// given bytes field (tag, length prefix, and data) exactly fieldSize bytes long.
+// It returns false if there is no such length.
+func bytesFieldDataLen(field protoreflect.FieldDescriptor, fieldSize int64) (int64, bool) {
+	if fieldSize == 0 {
+		return 0, true // empty data is not encoded at all
+	}
+	tagLen := int64(protowire.SizeTag(field.Number()))
+	for prefixLen := int64(1); prefixLen <= binary.MaxVarintLen64; prefixLen++ {
+		dataLen := fieldSize - tagLen - prefixLen
+		if dataLen <= 0 {
+			break
+		}
+		if int64(protowire.SizeVarint(uint64(dataLen))) == prefixLen {
+			return dataLen, true
+		}
+	}
+	return 0, false
 }
 
 // populateExpectedResponse populates the response we expected to get back from the server
